@@ -473,7 +473,8 @@ def scanToken : SM Tok := do
     if bb == [62, 62] then do skipByte; skipByte; pure (.obj (.op ">>"))
     else do
       let s ← getS
-      match s.err with
+      -- the reader's error is only looked at when the look-ahead was cut short
+      match (if bb.length < 2 then s.err else none) with
       | some e => fail e
       | none => fail syntaxErr
   else if b == 47 then do
